@@ -536,6 +536,31 @@ impl PoolGen {
             }
         }
         let (who, pid, lp, bal) = holders.choose(&mut self.rng)?.clone();
+        if self.rng.gen_range(0..45) == 0 {
+            // exodus: every holder of this pool's LP leaves (only the locked minimum, and what
+            // is locked in the farm manager, stays, backed by dust that carries every fee the
+            // pool ever earned), dust-sized trades follow, then somebody seeds the pool again
+            let p = obs.pools.get(&pid)?;
+            for (a, q, l, b) in holders.iter().filter(|h| h.1 == pid) {
+                self.script.push_back(withdraw_op(a, q, coin(*b, l.clone())));
+            }
+            for k in 0..3usize {
+                let n = p.info.asset_denoms.len();
+                let (i, j) = (k % n, (k + 1) % n);
+                let amt = self.rng.gen_range(1..5_000u128);
+                self.script.push_back(swap_op(&who, &pid, coin(amt, p.info.asset_denoms[i].clone()), &p.info.asset_denoms[j], None, Some(Decimal::percent(50)), None));
+            }
+            let funds: Vec<Coin> = p
+                .info
+                .asset_denoms
+                .iter()
+                .zip(p.info.asset_decimals.iter())
+                .map(|(d, dec)| coin(10u128.pow(*dec as u32) * self.rng.gen_range(100..100_000u128) + self.rng.gen_range(0..1000u128), d.clone()))
+                .collect();
+            let seeder = self.user(w);
+            self.script.push_back(provide_op(&seeder, &pid, funds, None, None, None, None, None));
+            return self.script.pop_front();
+        }
         let amt = match self.rng.gen_range(0..12) {
             0 => 1,
             1 => self.rng.gen_range(1..100).min(bal),
